@@ -41,7 +41,7 @@ CLAIMED = {
     'C04': dict(text=("Theorems: C04_protocol_safe_all_schedules / C04_invariant — a reference-count protocol machine "
         "(vector clocks for happens-before, C11 release/acquire rules, release sequences through RMWs, acquire loads that may read ANY not-yet-overwritten message, acquire fence as its own "
         "action, header read by the freeing thread, dealloc only after the fence, handles moved at spawn, joins) never reaches a data race, a use after free or a double free, for any number "
-        "of threads and every schedule (invariant J1-J10); C04_clone/drop/reserve/ensure_modifiable_respects_protocol and C04_every_operation_respects_protocol — the command trees of ALL "
+        "of threads and every schedule (invariant J1-J11); C04_clone/drop/reserve/ensure_modifiable_respects_protocol and C04_every_operation_respects_protocol — the command trees of ALL "
         "modelled readers and mutators (as_bytes, push_str, pop, truncate, remove, insert_str, retain, clear, shrink_to, reserve, clone, drop) perform, whatever values shared memory returns, only "
         "events whose protocol precondition holds; the typing also checks the orderings regenerated from the source (decrement at least Release, uniqueness load and the fence at least Acquire, "
         "fence before the header read and the dealloc); COMPOSITION: C04_typed_step / C04_typed_safe / C04_typed_progress (Compose.v) — in the interleaving semantics that runs thread programs "
